@@ -188,6 +188,9 @@ def run_shard(spec, ctx):
                 elif what == "simulate_table":
                     # visit design given as a table: IDs in inclusion order (not sorted), rows not sorted by age
                     tab = pd.DataFrame({"ID": ["P3", "P3", "P1", "P1", "P1", "P2", "P2"], "TIME": [71.5, 70.0, 66.0, 68.5, 67.25, 80.0, 78.5]})
+                    if (spec["k"] + i) % 2:  # integer identifiers (accepted by the design reader); fixed per case: every model object gets the same design
+                        tab["ID"] = tab["ID"].map({"P3": 30, "P1": 4, "P2": 17})
+                        ctx.count("simulate_tables_with_integer_ids")
                     tab_ref = tab.copy(deep=True)
                     vp = {"visit_type": "dataframe", "df_visits": tab}
                     feats = list(m.features)
